@@ -249,7 +249,7 @@ def c17_jobs(tier):
                     js.append(job("ZZ_C17_Start", C, day=d, round=r, sel=sel, layout=layout))
             for layout in range(5):
                 js.append(job("ZZ_C17_Stop", C, day=d, round=r, layout=layout))
-    js.append(job("ZZ_C02_EvalNow", S))
+    js += [job("ZZ_C02_EvalNow", S), job("ZZ_C02_EvalNowMany", S)]
     return js + lemmas()
 
 
@@ -268,7 +268,7 @@ A_C05 = ["target-file-still-exists", "bytes-on-disk-are-the-validated-result", "
 A_C11 = ["inserted-line-uses-record-or-file-indentation", "inserted-line-uses-file-line-ending", "repeat-same-outcome",
          "repeat-yields-identical-bytes", "unanimous-indentation-is-used", "unanimous-line-ending-is-used", "track-on-new-date-succeeds",
          "generated-date-follows-date-separator", "generated-open-range-follows-file-notation", "generated-time-follows-clock-convention",
-         "explicit-value-is-written-as-given", "config-accepted"]
+         "explicit-value-is-written-as-given", "config-accepted", "inserted-style-is-one-the-file-uses"]
 
 
 def mut(h, L, f, r, **kw):
@@ -369,6 +369,8 @@ def c14_jobs(tier):
     q = tier == "quick"
     js = [job("ZZ_C14_TagScan", n=n) for n in range(0, (6 if q else 7) + 1)]
     js += [job("ZZ_C14_TagTotals", S, n=1, e=2, mode=1), job("ZZ_C14_TagTotals", S, n=2, e=1, mode=1)]
+    # the same bytes as a two-line summary split at every position (values must be closed on their own line)
+    js += [job("ZZ_C14_TagScan", n=n, lines=2) for n in ([4, 5] if q else [4, 5, 6])]
     if not q:
         js += [job("ZZ_C14_TagTotals", S, n=2, e=2, mode=1), job("ZZ_C14_TagTotals", S, n=1, e=3, mode=1)]
     return js
@@ -448,7 +450,7 @@ CHECKS = {
     "C17": {
         "jobs": c17_jobs,
         "bounds": {
-            "quick": "clock at every minute (hour, minute symbolic) of 2021-06-15; roundings {none,5,60}; start x {default,--today,--yesterday,--tomorrow} x {records for yesterday/today/tomorrow, empty file}; stop x 5 layouts (open range today / yesterday only / yesterday with a record today / both / none) with every start time; total --now at every minute",
+            "quick": "clock at every minute (hour, minute symbolic) of 2021-06-15; roundings {none,5,60}; start x {default,--today,--yesterday,--tomorrow} x {records for yesterday/today/tomorrow, empty file}; stop x 5 layouts (open range today / yesterday only / yesterday with a record today / both / none) with every start time; total --now at every minute for one record and for two records (yesterday's and today's, either order) with an open range each",
             "thorough": "5 days (ordinary, month end, year end, leap day, day after), all 8 roundings",
         },
         "outside": "explicit --time / --date values (covered by C04's command model); clocks outside UTC; switch (= stop + start)",
@@ -509,14 +511,14 @@ CHECKS = {
     },
     "C11": {
         "jobs": c11_jobs, "asserts": A_C11,
-        "bounds": {"quick": "style election over 2-3 records with every combination of {4 spaces, 2 spaces, tab} x {LF, CRLF} incl. all ties, run twice under every map iteration order; track/create/start on every conforming 2-line file with 3 formatting combinations; notation of generated values (date separator, 12/24-hour clock, dash spacing, placeholder length) for start / start with explicit --time and --date / stop / create / track on files of 0-1 other records plus an optional target record, each record exhibiting every combination of the four notation choices through a duration, range or open-range entry, under no / slash+12h / dash+24h configured preference",
+        "bounds": {"quick": "style election over 2-3 records with every combination of {4 spaces, 2 spaces, tab} x {LF, CRLF} incl. all ties (unanimous style used; otherwise a style some record uses), run twice under every map iteration order; track/create/start on every conforming 2-line file with 3 formatting combinations; notation of generated values (date separator, 12/24-hour clock, dash spacing, placeholder length) for start / start with explicit --time and --date / stop / create / track on files of 0-1 other records plus an optional target record, each record exhibiting every combination of the four notation choices through a duration, range or open-range entry, under no / slash+12h / dash+24h configured preference",
                    "thorough": "all 12 line-ending x indentation-rotation combinations, 3-line files; notation with 2 other records (54756 files per command)"},
         "outside": "notation when the records that exhibit a choice disagree (only determinism is asserted there: the property names no winner); a record whose own entries disagree; times other than 13:05",
         "stubs": MUT_STUBS, "assumptions": MUT_ASSUME,
     },
     "C12": {
         "jobs": c12_jobs,
-        "bounds": {"quick": "1-3 records on 8 dates around year / ISO-week-year / leap-day / month boundaries (every choice with repetition, any order), totals symbolic in [-100000,100000], all 5 aggregations, --fill over the spanned range, klog today split; bucket hashes for all field values; week buckets on 1996-2005",
+        "bounds": {"quick": "1-3 records on 8 dates around year / ISO-week-year / leap-day / month boundaries (every choice with repetition, any order; the second record in either date notation), totals symbolic in [-100000,100000], all 5 aggregations, --fill over the spanned range, klog today split; bucket hashes for all field values; week buckets on 1996-2005",
                    "thorough": "4 records; week buckets on four decade windows"},
         "outside": "the rendered table text (alignment is C18); print --with-totals prefixes (local to the printing function); --decimal / --diff cell formatting; other dates than the boundary set for the composition (the bucket rule itself is proven for all dates in C15)",
         "stubs": [MODELS["sort"], MODELS["tabulate"], MODELS["fmt"]],
@@ -524,7 +526,7 @@ CHECKS = {
     },
     "C13": {
         "jobs": c13_jobs,
-        "bounds": {"quick": "shortcut filters this/last month, quarter, year and --today for every reference date 2019-2022 against records on the first/last day of the reference period and their neighbours; sort of 1-3 records with symbolic dates (2019-2021, any month, day 1-28), asc and desc; date clauses (--date, --since, --since+--until) on 1-2 records with symbolic dates; tag clauses (#x, #y, #x=v at record and entry level) x 5 entry types x all entry kinds on 1 record x 2 entries and 2 records x 1 entry",
+        "bounds": {"quick": "shortcut filters this/last month, quarter, year and --today for every reference date 2019-2022 against records on the first/last day of the reference period and their neighbours; sort of 1-3 records with symbolic dates (2019-2021, any month, day 1-28) written with either date separator (mixed notations), asc and desc; date clauses (--date, --since, --since+--until) on 1-2 records with symbolic dates; tag clauses (#x, #y, #x=v at record and entry level) x 5 entry types x all entry kinds on 1 record x 2 entries and 2 records x 1 entry",
                    "thorough": "sort up to 5 records; 3 records for date clauses; all clause kinds combined on one record; 3 entries"},
         "outside": "--after/--before/--period, --yesterday/--tomorrow and the week shortcuts of FilterArgs.ApplyFilter (they pass C15's period code through unchanged; month/quarter/year shortcuts and --today are composed here for every reference date of the windows); sort of more than 12 records (pdqsort leaves its insertion-sort regime)",
         "stubs": [MODELS["sort"], MODELS["regexp"]],
@@ -532,9 +534,9 @@ CHECKS = {
     },
     "C14": {
         "jobs": c14_jobs,
-        "bounds": {"quick": "every ASCII one-line summary of 0..6 bytes against a reference tag scanner written from the specification; tag totals for record/entry tag combinations of {#x, #y, #x=v} on 1x2 and 2x1 records x entries with symbolic durations",
+        "bounds": {"quick": "every ASCII one-line summary of 0..6 bytes, and every 4-5 byte summary split into two lines at every position, against a reference tag scanner written from the specification; tag totals for record/entry tag combinations of {#x, #y, #x=v} on 1x2 and 2x1 records x entries with symbolic durations",
                    "thorough": "summaries up to 7 bytes; 2x2 and 1x3 shapes"},
-        "outside": "non-ASCII letters in tag names (the Unicode letter class is only reached with concrete runes); summaries longer than the bound; multi-line summaries",
+        "outside": "non-ASCII letters in tag names (the Unicode letter class is only reached with concrete runes); summaries longer than the bound; summaries of more than two lines",
         "stubs": [MODELS["regexp"], MODELS["sort"]],
         "assumptions": COMMON_ASSUME,
     },
@@ -557,7 +559,7 @@ CHECKS = {
     },
     "C18": {
         "jobs": c18_jobs,
-        "bounds": {"quick": "commands print, print --with-totals, total --diff, report --diff --fill (5 aggregations), tags --values --count, today --diff on a two-record file whose record summary has 2 symbolic bytes (full byte range incl. ESC) and a symbolic digit, under themes dark, light, basic vs no_colour",
+        "bounds": {"quick": "commands print, print --with-totals, total --diff, report --diff --fill (5 aggregations), tags --values --count, today --diff on a two-record file whose record summary has 2 symbolic bytes (full byte range incl. ESC), a symbolic digit and a tag value that is ASCII, `b\u00fc` or two CJK characters, under themes dark, light, basic vs no_colour",
                    "thorough": "same"},
         "outside": "other files; user text that itself contains SGR sequences is compared after stripping on both sides; NO_COLOR / --no-style plumbing (kong)",
         "stubs": [MODELS["regexp"], MODELS["fmt"], MODELS["builder"], MODELS["sort"]],
